@@ -66,6 +66,16 @@ def cases(tier):
     for name, pos, g in ms.special_graphs():
         if "complete4" in name or "cycle4" in name:
             yield {"kind": "run", "gs": ms.explicit(g), "pos": pos, "slice": "special", "name": name, "variant": "linked", "tier": tier}
+    # routes that go around a block more than once (the same directed edge is used twice, not consecutively)
+    for name, pos, g in ms.special_graphs():
+        if "cycle4" in name or "complete4" in name:
+            P = [v[0] for v in g.values()]
+            near = [(p[0] + 0.13, p[1] - 0.11) for p in P]
+            mid = [((P[i][0] + P[(i + 1) % 4][0]) / 2 + 0.07, (P[i][1] + P[(i + 1) % 4][1]) / 2 - 0.05) for i in range(4)]
+            for loop in ([mid[0], mid[1], mid[2], mid[3], mid[0], mid[1]], [near[0], near[1], near[2], near[3], near[0], near[1], near[2]],
+                         [mid[0], mid[2], mid[0], mid[2], mid[1]], [mid[3], mid[2], mid[1], mid[0], mid[3], mid[2]]):
+                yield {"kind": "run", "gs": ms.explicit(g), "pos": pos, "slice": "special", "name": name, "variant": "plain", "tier": tier,
+                       "trace": loop, "loop": True}
 
 
 def make_judge(linked):
@@ -92,6 +102,16 @@ def make_judge(linked):
 
 def run_case(case):
     res = dict(n=0, st=0, tr=0, tv=0, nt=0, out=[], v=[], k=[])
+    if case.get("loop") and "cfg" not in case:
+        out = res
+        for c in MAIN:
+            r = run_case(dict(case, cfg=c))
+            for key in ("n", "st", "tr", "tv", "nt"):
+                out[key] += r[key]
+            out["v"] += r["v"]
+            out["out"] = sorted(set(map(repr, out["out"])) | set(map(repr, r["out"])))[:200]
+        out["v"] = out["v"][:10]
+        return out
     depth = 3 if (case.get("tier") == "thorough" or case.get("slice") == "hist-special") else 2
     variant = case.get("variant", "plain")
     if variant in ("selfnbr", "str") and not isinstance(case["gs"], dict):
